@@ -9,8 +9,12 @@ C02 — Rendering never panics and never writes outside the viewport.
   `Retro.Props.C02.Confined`: `render_viewport_confined` — every pixel outside the viewport rectangle keeps
                               its colour and depth (per-pixel semantics of the draw loop from C06)
   `Retro.Props.C02.ConfinedColor`: the same for colour-only targets (`drawTris_pixC`, `render_color_target`)
+  `Retro.Props.C02.Poison`  : NaN/∞-freedom of the depth buffer as a theorem — `render` run at `Poison K` on a lifted
+                              scene is the lift of the exact run (`render_poison_free`), so the returned depth
+                              buffer holds no `bad` entry (`render_depth_poison_free`)
 -/
 import Retro.Props.C02.Links
 import Retro.Props.C02.NoPanic
 import Retro.Props.C02.Confined
 import Retro.Props.C02.ConfinedColor
+import Retro.Props.C02.Poison
